@@ -46,7 +46,11 @@ MANIFEST = dict(
           "np.pad constant_values / end_values, np.diff prepend / append, np.ediff1d to_begin / to_end, np.isclose / np.allclose; "
           "NEAR-MISS DIMENSIONS - a catalogue written as exponent vectors around `length` (one exponent moved by a fraction, negated, "
           "doubled, permuted, one more base dimension for every base dimension) walked over every ordered pair by all 18 keys, the 4 "
-          "conversion entry points and __setitem__."),
+          "conversion entry points and __setitem__. OPERAND EXTENT - size-0 operands ((0,), (0,2), (2,0), the list []) as an operand-shape "
+          "axis of every merging family: 39 array-function call shapes built for empty extents (empty next to non-empty, non-empty next to "
+          "empty, both empty), all 18 keys in call / where= / operator / out= / outer / in-place form on the extent pairs broadcasting allows, "
+          "__setitem__ of an empty value into an empty selection, the fill / put / searchsorted methods, unyt_array(sequence of empty "
+          "quantities); an empty quantity still carries its unit (oracle unchanged), an empty bare operand is exempt."),
     design="DESIGN.md section 4 C01",
     technique="symbolic execution of the real Python code over z3 real terms; SMT obligations per path; counterexample replay")
 EXPLANATION = (
@@ -80,7 +84,14 @@ EXPLANATION = (
     "must be decided on the whole exponent vector: besides the registry's catalogue, a catalogue of NEAR-MISS dimensions written in "
     "this file as exponent vectors (the oracle's identity of a dimension is its vector) is walked over every ordered pair - vectors "
     "that agree after truncation / rounding / negation / sorting / summing of the exponents, or in all but one base dimension - with "
-    "symbolic scales on both sides."
+    "symbolic scales on both sides. "
+    "The EXTENT of an operand must not matter either: an empty quantity (a selection that matched nothing, an accumulator without data) "
+    "still carries its unit, so every merging family is re-run with size-0 operands - empty next to non-empty in both positions, and "
+    "both empty - under the unchanged oracle (returned normally => commensurable or documented exception; raised => operands intact). "
+    "An empty BARE operand (ndarray of size 0, the list []) has neither a unit nor a non-zero element and is exempt (in a ufunc through "
+    "the zero exception, which holds vacuously; in a merging function only the operands that carry units are compared). An empty "
+    "operand has no element symbols: what the solver decides in these cases are the unit scales (unyt's 1e-9 same-unit band, the "
+    "dimensionless-scale band of the known defects) and the elements of the non-empty partner."
 )
 BOUNDS = {
     "quick": "18 commensurability-requiring binary keys of _ufunc_registry x forms {call, call with where= / casting= / subok= spelled out, operator, out=quantity, out=ndarray, outer, at, "
@@ -122,7 +133,18 @@ BOUNDS = {
              "commensurable unit / with the same-spelling unit of another scale} on (same, other dimension), (same, dimensionless), "
              "(same, same spelling other dimension); __setitem__ (5 index forms) after 7 histories on 3 pairs; the 4 conversion entry "
              "points on 5 unit pairs in 3 spellings, unit / string target, after 5 histories; plus the engine's sampled @after "
-             "variants (another case first, other registry)",
+             "variants (another case first, other registry). OPERAND EXTENT (size 0): 30 + 9 array-function call shapes written for empty "
+             "extents (concatenate (axis 0 / 1, three members with the empty one first / in the middle / last), stack, vstack, hstack, dstack, "
+             "column_stack, block, append, where, choose, select (+ default), linspace, intersect1d, union1d, setdiff1d, isin, searchsorted, "
+             "clip, insert, diff prepend / append, ediff1d to_begin / to_end, isclose, allclose; place, put (empty / non-empty index), "
+             "putmask, put_along_axis, fill_diagonal, copyto (+ where=), clip out=) on the extent pairs ((2,),(0,)), ((0,),(2,)), ((0,),(0,)), "
+             "((0,),()), ((0,),(1,)), ((2,2),(0,2)), ((2,2),(2,0)) ... each shape admits x 9 operand-kind pairs (same / other dimension in both "
+             "orders, other unit, dimensionless, scaled-dimensionless, empty bare array, the list [], bare array next to an empty "
+             "quantity, same spelling other dimension), 7 call shapes also after two earlier calls; 9 keys x 10 kind pairs x extent "
+             "pairs {(0,)+(0,), (0,)+(), ()+(0,), (0,)+(1,), (1,)+(0,)} x forms {call, where=/casting=, operator, out=quantity, out=ndarray, "
+             "outer, in-place}, the other 9 keys on (0,)+(0,) x 3 pairs; __setitem__ x 8 empty forms (a[0:0], a[[]], all-False mask, "
+             "e[:], e[...], rows of a (2,2) array, scalar / (1,) value into an empty target) x 9 pairs; 3 methods; unyt_array(list / tuple "
+             "of 2-3 empty members: same / other unit / other dimension / scaled-dimensionless / empty bare array / []) x extents (0,), (0,2)",
     "thorough": "as quick with all 11 kinds on both sides, every distinct dimension of the registry pairwise (51: 2601 ordered pairs), and "
                 "the shape pairs ((2,),(2,)) in all forms (outer only for the keys whose loops do not branch) and ((),(2,)) in all forms, ((2,2),(2,)) call/operator/in-place/out=, ((2,),(2,2)) call/operator, ((2,2),()) "
                 "call/in-place/at/reduce, ((2,2),(2,2)) call; for the comparison and min/max keys (whose NumPy loops branch per element "
@@ -133,11 +155,13 @@ BOUNDS = {
                 "operator, out=, outer; (2,) arrays with in-place / at / out= after the two main histories for the in-place keys, maximum, "
                 "less, hypot), array functions x 8 histories x 8 pairs (other spellings after 3 histories on one pair), __setitem__ x 7 "
                 "histories x 7 pairs, conversions x 9 histories x 10 pairs; near-miss dimensions: 43 exponent vectors (further "
-                "fractions 2/3, 5/2, -3/2, half powers of every other base dimension), call and operator form",
+                "fractions 2/3, 5/2, -3/2, half powers of every other base dimension), call and operator form; operand extent: 15 kind "
+                "pairs, all 18 keys on 7 extent pairs (also (0,2)+(2,), (2,0)+(2,0)), every empty call shape after the two earlier calls, "
+                "all 6 constructor spellings, member extent (2,0)",
 }
 OUTSIDE = ("IEEE rounding/overflow/nan (A1): a path on which NumPy's loop divides by zero is dropped; integer/complex payloads and the "
            "integer-only ufuncs (bitwise_*, shifts, ldexp); power/logaddexp/logaddexp2/logical_xor are classified (no demand) but not "
-           "run; dask, pint/astropy inputs, masked arrays, user subclasses; extents > 2; reduceat; calls in which no argument is itself a "
+           "run; dask, pint/astropy inputs, masked arrays, user subclasses; extents > 2 (size-0 extents (0,), (0,2), (2,0), (0,0) are walked; not crossed with the call-spelling and sequence-kind axes; no ufunc.at / reduce, np.interp, np.pad on empty operands); reduceat; calls in which no argument is itself a "
            "unyt_array (np.add.reduce([a, b]) on a python list; np.append(x, [q1, q2]) ravels the list to bare numbers: NumPy strips "
            "the units before unyt is entered); reduce(initial=<quantity>) (NumPy casts `initial` to the array's float dtype before unyt "
            "runs, which an object payload cannot reproduce; the bare-number variant is checked); the built-in CGS<->MKS electromagnetic "
@@ -759,7 +783,8 @@ def run_forms(ctx, W, name, k0, k1, s0, s1, forms=FORMS):
 
 
 def shstr(s):
-    return "x".join(map(str, s)) or "0"
+    """() -> "0"; a size-0 extent gets an "e" in front: (0,) -> "e0", (0, 2) -> "e0x2" (ids of the other shapes are unchanged)"""
+    return ("e" if 0 in s else "") + "x".join(map(str, s)) if s else "0"
 
 
 # ------------------------------------------------------------------------------------------------ call history
@@ -973,6 +998,8 @@ def _mask(n):
 
 
 def _sel_default(x0):
+    if hasattr(x0, "units") and x0.size == 0:
+        return 0.0 * x0.units
     return x0.reshape(-1)[0] if hasattr(x0, "units") else 0.0
 
 
@@ -1038,6 +1065,99 @@ AF_TARGET = {
 AF_KNOWN = {"copyto": L_COPYTO}  # the masked form converts or raises since 3bb224c; the unmasked one still relabels dst
 AF_K0 = QUANTITY_KINDS + ["barray"]
 AF_K1 = KINDS
+
+# OPERAND EXTENT axis: size-0 operands. An empty quantity (a selection that matched nothing, an accumulator that has not received
+# data yet) still carries its unit: the oracle is unchanged (returned normally => commensurable ...). An empty BARE operand
+# (ndarray of size 0, the list []) has neither a unit nor a non-zero element: it is exempt everywhere (in a ufunc by the zero
+# exception - `all elements are 0` is vacuously true -, in a merging function by the assignment reading). There are no element
+# symbols in an empty operand; the solver variables of these cases are the unit scales and the partner's elements. Names are
+# <call shape>@<variant>; the masks / index arrays are built for the extents of the operands.
+def _m0(x):
+    return np.zeros(np.shape(x), dtype=bool)
+
+
+def _mb(x0, x1):
+    return np.zeros(np.broadcast_shapes(np.shape(x0), np.shape(x1)), dtype=bool)
+
+
+E0, E2 = (0,), (2,)
+_NE_EN_EE = [(E2, E0), (E0, E2), (E0, E0)]
+AF_E = {
+    "concatenate@": ("merge", lambda np_, x0, x1: np_.concatenate([x0, x1]), _NE_EN_EE + [((2, 2), (0, 2)), ((0, 2), (2, 2))]),
+    "concatenate@axis1": ("merge", lambda np_, x0, x1: np_.concatenate([x0, x1], axis=1), [((2, 2), (2, 0)), ((2, 0), (2, 0))]),
+    "concatenate3@last": ("merge", lambda np_, x0, x1: np_.concatenate([x0, x0, x1]), [(E2, E0), (E0, E2)]),
+    "concatenate3@mid": ("merge", lambda np_, x0, x1: np_.concatenate([x0, x1, x0]), [(E2, E0)]),
+    "concatenate3@first": ("merge", lambda np_, x0, x1: np_.concatenate([x1, x0, x0]), [(E2, E0)]),
+    "stack@": ("merge", lambda np_, x0, x1: np_.stack([x0, x1]), [(E0, E0), ((0, 2), (0, 2))]),
+    "vstack@": ("merge", lambda np_, x0, x1: np_.vstack([x0, x1]), [((2, 2), (0, 2)), ((0, 2), (2, 2)), (E0, E0)]),
+    "hstack@": ("merge", lambda np_, x0, x1: np_.hstack([x0, x1]), _NE_EN_EE),
+    "dstack@": ("merge", lambda np_, x0, x1: np_.dstack([x0, x1]), [((2, 0), (2, 0)), (E0, E0)]),
+    "column_stack@": ("merge", lambda np_, x0, x1: np_.column_stack([x0, x1]), [(E0, E0)]),
+    "block@": ("merge", lambda np_, x0, x1: np_.block([x0, x1]), _NE_EN_EE),
+    "append@": ("merge", lambda np_, x0, x1: np_.append(x0, x1), [(E2, E0), (E0, E2), (E0, ())]),
+    "where@": ("merge", lambda np_, x0, x1: np_.where(_mb(x0, x1), x0, x1), [(E0, E0), (E0, (1,)), ((1,), E0), (E0, ()), ((), E0)]),
+    "choose@": ("merge", lambda np_, x0, x1: np_.choose(np.zeros(0, dtype=int), [x0, x1]), [(E0, E0)]),
+    "select@": ("merge", lambda np_, x0, x1: np_.select([_m0(x0), ~_m0(x0)], [x0, x1], _sel_default(x0)), [(E0, E0)]),
+    "select_default@": ("assign", lambda np_, x0, x1: np_.select([_m0(x0)], [x0], x1), [(E0, E0), (E0, ())]),
+    "linspace@": ("merge", lambda np_, x0, x1: np_.linspace(x0, x1, 3), [(E0, E0)]),
+    "intersect1d@": ("merge", lambda np_, x0, x1: np_.intersect1d(x0, x1), _NE_EN_EE),
+    "union1d@": ("merge", lambda np_, x0, x1: np_.union1d(x0, x1), _NE_EN_EE),
+    "setdiff1d@": ("merge", lambda np_, x0, x1: np_.setdiff1d(x0, x1), _NE_EN_EE),
+    "isin@": ("merge", lambda np_, x0, x1: np_.isin(x0, x1), _NE_EN_EE),
+    "searchsorted@": ("assign", lambda np_, x0, x1: np_.searchsorted(x0, x1), [(E2, E0), (E0, E2), (E0, ())]),
+    "clip@": ("assign", lambda np_, x0, x1: np_.clip(x0, x1, x1), [(E0, ()), (E0, E0), ((1,), E0)]),
+    "insert@": ("assign", lambda np_, x0, x1: np_.insert(x0, 0, x1), [(E2, E0), (E0, E2), (E0, ())]),
+    "diff_prepend@": ("assign", lambda np_, x0, x1: np_.diff(x0, prepend=x1), [(E2, E0)]),
+    "diff_append@": ("assign", lambda np_, x0, x1: np_.diff(x0, append=x1), [(E2, E0)]),
+    "ediff1d_end@": ("assign", lambda np_, x0, x1: np_.ediff1d(x0, to_end=x1), [(E2, E0)]),
+    "ediff1d_begin@": ("assign", lambda np_, x0, x1: np_.ediff1d(x0, to_begin=x1), [(E2, E0)]),
+    "isclose@": ("assign", lambda np_, x0, x1: np_.isclose(x0, x1), [(E0, E0), (E0, ())]),
+    "allclose@": ("assign", lambda np_, x0, x1: np_.allclose(x0, x1), [(E0, E0)]),
+}
+AF_E_TARGET = {
+    "place@": ("assign", lambda np_, c, x1: np_.place(c, _m0(c), x1), [(E2, E0), (E0, E2), (E0, ())]),
+    "put@": ("assign", lambda np_, c, x1: np_.put(c, [], x1), [(E2, E0), (E0, E2), (E0, ())]),
+    "put@ind0": ("assign", lambda np_, c, x1: np_.put(c, [0], x1), [(E2, E0)]),
+    "putmask@": ("assign", lambda np_, c, x1: np_.putmask(c, _m0(c), x1), [(E2, E0), (E0, E0), (E0, ())]),
+    "put_along_axis@": ("assign", lambda np_, c, x1: np_.put_along_axis(c, np.zeros(0, dtype=int), x1, 0), [(E0, E0), (E0, ())]),
+    "fill_diagonal@": ("assign", lambda np_, c, x1: np_.fill_diagonal(c, x1), [((0, 0), ())]),
+    "copyto@": ("assign", lambda np_, c, x1: np_.copyto(c, x1), [(E0, E0), (E0, ())]),
+    "copyto_where@": ("assign", lambda np_, c, x1: np_.copyto(c, x1, where=_m0(c)), [(E0, E0), (E0, ())]),
+    "clip_out@": ("assign", lambda np_, c, x1: np_.clip(c, x1, x1, out=c), [(E0, ())]),
+}
+EMPTY_AF_PAIRS = {
+    "quick": [("same", "diffdim"), ("diffdim", "same"), ("same", "samedim"), ("same", "dimless"), ("same", "percent"), ("same", "barray"),
+              ("same", "blist"), ("barray", "diffdim"), ("same", "twin_dim")],
+    "thorough": [("same", "diffdim"), ("diffdim", "same"), ("same", "samedim"), ("same", "same"), ("same", "dimless"), ("dimless", "same"),
+                 ("same", "percent"), ("percent", "diffdim"), ("same", "barray"), ("same", "blist"), ("barray", "diffdim"),
+                 ("same", "twin_dim"), ("twin_dim", "same"), ("same", "twin_scale"), ("redim_old", "redim_new")],
+}
+# binary ufuncs: the extents NumPy's broadcasting allows next to an empty partner
+EMPTY_UF_SHAPES = [(E0, E0), (E0, ()), ((), E0), (E0, (1,)), ((1,), E0), ((0, 2), E2), ((2, 0), (2, 0))]
+EMPTY_UF_FORMS = ["call", "call_kw", "op", "out_q", "out_b", "outer", "iop"]
+EMPTY_UF_PAIRS = {
+    "quick": [("same", "diffdim"), ("diffdim", "same"), ("same", "samedim"), ("same", "dimless"), ("dimless", "same"), ("same", "percent"),
+              ("same", "barray"), ("barray", "same"), ("same", "blist"), ("same", "twin_dim")],
+    "thorough": [("same", "diffdim"), ("diffdim", "same"), ("same", "samedim"), ("same", "same"), ("same", "dimless"), ("dimless", "same"),
+                 ("same", "percent"), ("percent", "diffdim"), ("same", "barray"), ("barray", "same"), ("same", "blist"),
+                 ("same", "twin_dim"), ("twin_dim", "same"), ("same", "twin_scale"), ("redim_old", "redim_new")],
+}
+
+
+def _af_entry(fname):
+    for t in (AF, AF_TARGET, AF_E, AF_E_TARGET):
+        if fname in t:
+            return t[fname]
+    raise KeyError(fname)
+
+
+def empty_af_applicable(fname, k0, k1, s0, s1):
+    if k1 == "blist" and (0 not in s1 or len(s1) != 1 or fname.split("@")[0] in ("linspace", "append")):
+        return False  # the python list [] stands where the empty operand stands
+    if k0 == "barray" and fname in AF_E_TARGET:
+        return False
+    return twin_ok(k0, k1)
+
 
 # CALL SPELLINGS (argument-form axis): the same call shape with its arguments handed over in every other way NumPy's signature
 # permits - an optional parameter positionally instead of by keyword (or the reverse), the operands themselves by keyword, the
@@ -1183,8 +1303,9 @@ def af_applicable(fname, k0, k1, s1):
 
 
 def make_af_case(fname, k0, k1, shapes, dims, spell=None, history=()):
-    target = fname in AF_TARGET
-    klass, fn, _ = (AF_TARGET if target else AF)[fname]
+    target = fname in AF_TARGET or fname in AF_E_TARGET
+    klass0, fn, _ = _af_entry(fname)
+    base = fname.split("@")[0]  # <call shape>@<variant>: the size-0 extent variants of a call shape
     if spell is not None:
         fn = AF_SPELL[fname][spell]
     s0, s1 = shapes
@@ -1195,9 +1316,11 @@ def make_af_case(fname, k0, k1, shapes, dims, spell=None, history=()):
         a = W.operand(k0, s0, "p")
         b = W.operand(k1, s1, "q")
         tgt = a.copy("target") if target else a
+        # an EMPTY bare operand has neither a unit nor an element: nothing of it is combined (only what carries units is compared)
+        klass = "assign" if any(o.bare and not o.elems for o in (tgt, b)) else klass0
         res = xcall(fn, np, tgt.value, b.value)
-        known = L_COPYLIST if (fname.startswith("copyto") and k1 in QLIST_KINDS) else AF_KNOWN.get(fname)
-        if fname in ("isclose", "allclose") and res[0] == "ok" and not no_demand([tgt, b], klass):
+        known = L_COPYLIST if (fname.startswith("copyto") and k1 in QLIST_KINDS) else AF_KNOWN.get(base)
+        if base in ("isclose", "allclose") and res[0] == "ok" and not no_demand([tgt, b], klass):
             dl = [o for o in (tgt, b) if o.dim == "dimensionless" and is_unyt(ctx, o.value)]
             if k1 in QLIST_KINDS:
                 # known defect: only `.units` of an operand is looked at; a python sequence of quantities has none and is read as
@@ -1211,7 +1334,9 @@ def make_af_case(fname, k0, k1, shapes, dims, spell=None, history=()):
                             And(*[And(o.value.units.base_value >= 1 - 2e-9, o.value.units.base_value <= 1 + 2e-9) for o in dl]))
         judge(ctx, W, f"{fname}({k0},{k1})", fname, res, [tgt, b], klass, known)
         W.flush()
-    cid = f"C01/af/{fname}/{k0}+{k1}/{shstr(s0)}_{shstr(s1)}" + (f"/as-{spell}" if spell else "") + (f"/after-{hist_id(history)}" if history else "")
+    # (the size-0 variants keep the id prefix of their call shape: a defect listed for the call shape is the same defect here)
+    cid = (f"C01/af/{base}/{k0}+{k1}/{shstr(s0)}_{shstr(s1)}" + ("/empty-extent" + ("-" + fname.split("@")[1] if fname.split("@")[1] else "") if "@" in fname else "")
+           + (f"/as-{spell}" if spell else "")) + (f"/after-{hist_id(history)}" if history else "")
     return Case(cid, h, bounds="symbolic: elements, scales", budget_s=3000, max_paths=6000,
                 weight=4, conform=fname != "geomspace")
 
@@ -1237,6 +1362,24 @@ SETITEM = {
     "row_item": (lambda c, v: c.__setitem__(0, v), (2,), (2, 2)),
 }
 SETITEM_CORE = ["item", "slice", "mask", "ellipsis", "slice_bcast"]
+# OPERAND EXTENT axis: an empty value stored into an empty selection (value shape, target shape)
+SETITEM_E = {
+    "empty_slice00": (lambda c, v: c.__setitem__(slice(0, 0), v), (0,), (2,)),
+    "empty_fancy": (lambda c, v: c.__setitem__([], v), (0,), (2,)),
+    "empty_mask_none": (lambda c, v: c.__setitem__(np.array([False, False]), v), (0,), (2,)),
+    "empty_slice_all": (lambda c, v: c.__setitem__(slice(None), v), (0,), (0,)),
+    "empty_ellipsis": (lambda c, v: c.__setitem__(Ellipsis, v), (0,), (0,)),
+    "empty_rows": (lambda c, v: c.__setitem__(slice(0, 0), v), (0, 2), (2, 2)),
+    "empty_target_scalar": (lambda c, v: c.__setitem__(slice(None), v), (), (0,)),
+    "empty_target_bcast": (lambda c, v: c.__setitem__(Ellipsis, v), (1,), (0,)),
+}
+METHODS_E = {
+    "empty_put": (lambda c, v: c.put([], v), (0,), (2,)),
+    "empty_searchsorted": (lambda c, v: c.searchsorted(v), (0,), (2,)),
+    "empty_fill": (lambda c, v: c.fill(v), (), (0,)),
+}
+EMPTY_SET_PAIRS = [("same", "diffdim"), ("diffdim", "same"), ("same", "samedim"), ("same", "dimless"), ("same", "percent"), ("dimless", "same"),
+                   ("same", "barray"), ("same", "blist"), ("same", "twin_dim")]
 METHODS = {
     "fill": (lambda c, v: c.fill(v), ()),
     "put": (lambda c, v: c.put([0], v), ()),
@@ -1311,6 +1454,24 @@ def make_ctor_case(form, k1, dims):
         judge(ctx, W, f"ctor.{form}({k1})", "ctor", res, [b], "merge", known)
         W.flush()
     return Case(f"C01/ctor/{form}/{k1}", h, bounds="symbolic: elements, scales", budget_s=600, weight=2)
+
+
+def make_ctor_empty_case(form, cont, members, shape, dims):
+    """unyt_array(sequence of EMPTY arrays): members A / B / C = empty quantity in xa / xb / xc, p = in xp, b = empty bare ndarray,
+    l = the list []. The empty quantities carry units and are merged under one label: they must be commensurable or the call raises"""
+    def h(ctx):
+        W = World(ctx, *dims)
+        kinds = {"A": "same", "B": "samedim", "C": "diffdim", "p": "percent", "b": "barray", "l": "blist"}
+        ops = [W.operand(kinds[m], shape if m != "l" else (0,), f"q{i}") for i, m in enumerate(members)]
+        seq = cont([o.value for o in ops])
+        res = xcall(CTOR[form], ctx.mods["unyt"].unyt_array, seq, W.reg)
+        klass = "assign" if any(o.bare for o in ops) else "merge"
+        judge(ctx, W, f"ctor.{form}(empty {members})", "ctor", res, ops, klass)
+        if res[0] == "raise":
+            ctx.require(f"ctor.{form}(empty {members}): sequence unchanged after raise",
+                        len(seq) == len(ops) and all(x is o.value for x, o in zip(seq, ops)))
+        W.flush()
+    return Case(f"C01/ctor-empty/{form}/{cont.__name__}-{members}/{shstr(shape)}", h, bounds="symbolic: scales", budget_s=600, weight=2)
 
 
 CONVERT = {
@@ -1695,6 +1856,40 @@ def cases(tier, mods):
         for k0, k1 in itertools.product(("same", "diffdim", "dimless", "percent"), SEQ_NEW):
             if assign_applicable(k1, SETITEM[form][1]):
                 out.append(make_assign_case("setitem", form, k0, k1, SETITEM, dims))
+    # OPERAND EXTENT axis: size-0 operands in every family that merges values
+    for fname in list(AF_E) + list(AF_E_TARGET):
+        for shp in _af_entry(fname)[2]:
+            for k0, k1 in EMPTY_AF_PAIRS[tier]:
+                if empty_af_applicable(fname, k0, k1, *shp):
+                    out.append(make_af_case(fname, k0, k1, shp, dims))
+        if not quick or fname.split("@")[0] in ("concatenate", "union1d", "where", "insert", "place", "searchsorted", "clip"):
+            # ... and after earlier calls on non-empty operands of the same units
+            shp = _af_entry(fname)[2][0]
+            for hist in [(("uf", "less", "call", "same"),), (("af", "concatenate", "comm"),)]:
+                out.append(make_af_case(fname, "same", "diffdim", shp, dims, history=hist))
+    for name in names:
+        if name not in REQUIRE:
+            continue
+        full = not quick or name in QUICK_SHAPED
+        for k0, k1 in (EMPTY_UF_PAIRS[tier] if full else [("same", "diffdim"), ("same", "dimless"), ("same", "barray")]):
+            for s0, s1 in (EMPTY_UF_SHAPES if not quick else EMPTY_UF_SHAPES[:5] if full else EMPTY_UF_SHAPES[:1]):
+                if k1 == "blist" and s1 != E0:
+                    continue
+                forms = [f for f in EMPTY_UF_FORMS if not (f == "outer" and name in FORKING and () not in (s0, s1) and 0 not in s0 + s1)]
+                out.append(make_ufunc_case(name, k0, k1, s0, s1, *dims, forms=forms, group="uf-empty"))
+    for form in SETITEM_E:
+        for k0, k1 in EMPTY_SET_PAIRS:
+            if not (k1 == "blist" and SETITEM_E[form][1] != (0,)):
+                out.append(make_assign_case("setitem", form, k0, k1, SETITEM_E, dims))
+    for form in METHODS_E:
+        for k0, k1 in (("same", "diffdim"), ("same", "dimless"), ("dimless", "same")):
+            out.append(make_assign_case("method", form, k0, k1, METHODS_E, dims))
+    for form in ("array", "array_reg") if quick else CTOR:
+        for cont in (list, tuple):
+            for members in ("AA", "AB", "AC", "CA", "Ap", "pC", "AAC", "CAA", "bC", "Cb", "lC", "Cl"):
+                for shape in ((0,), (0, 2)) if quick or cont is tuple else ((0,), (0, 2), (2, 0)):
+                    if cont is list or members in ("AC", "CA", "bC"):
+                        out.append(make_ctor_empty_case(form, cont, members, shape, dims))
     for form in METHODS:
         for k0, k1 in itertools.product(("same", "dimless"), KINDS):
             if assign_applicable(k1, METHODS[form][1]) and twin_ok(k0, k1):
